@@ -123,6 +123,9 @@ var catalogue = []expr{
 	{"orderby-injective", "N orderby ."}, {"orderby-injective", "S orderby ."}, {"orderby-injective", "R orderby [.x, .y]"}, {"orderby-injective", "F orderby -."},
 	{"orderby-injective", "D orderby .@"}, {"order-injective", "N order \\a \\b a > b"},
 	{"rank-injective", "R rank (k: [.x, .y])"},
+	// several rank keys, rows tied on one of them (tied rows share a rank whatever order they are met in)
+	{"rank-ties", "R rank (a: .y, b: .x)"}, {"rank-ties", "(S => (x: 1, y: .)) rank (r: .x, s: .y)"}, {"rank-ties", "(R rank (a: .y, b: -.x)) orderby [.x, .y]"},
+	{"rank-ties", "(R <&> R2) rank (a: .y, b: .z, c: .x)"},
 	{"superimposed-item", "N => (@: . % 3, @item: .)"}, {"superimposed-item", "N => (@: 0, @item: .)"}, {"superimposed-item", "(S => (@: 0, @item: .))(0)"},
 	{"superimposed-char", "N => (@: . % 2, @char: 65 + (. % 26))"}, {"superimposed-byte", "N => (@: . % 2, @byte: 65 + (. % 26))"},
 	{"keyed-distinct", "N => (@: ., @item: . * 2)"}, {"keyed-distinct", "N => (@: ., @char: 97 + (. % 26))"},
